@@ -30,9 +30,13 @@ Variable progname progver : list byte.
 Hypothesis genv_nz : forall n v, genv n = Some v -> val_ok v.
 Hypothesis progname_nz : Forall nz_byte progname.
 Hypothesis progver_nz : val_ok progver.
+Variable exec_out : list byte -> exec_answer.
+Variable dir_list : list byte -> dir_answer.
+Hypothesis exec_ok : forall c o, exec_out c = ExecOut o -> Forall is_byte o /\ small o.
+Hypothesis dir_ok : forall d ns, dir_list d = DirList ns -> Forall (Forall nz_byte) ns.
 
-Notation sx := (sx genv progname progver).
-Notation lloop := (lloop genv progname progver).
+Notation sx := (sx genv progname progver exec_out dir_list).
+Notation lloop := (lloop genv progname progver exec_out dir_list).
 
 (* ---------- sx does not run out of its counter ---------- *)
 Lemma emit_fuel frag r : emit frag r = SFuel -> r = SFuel.
@@ -61,10 +65,10 @@ Proof.
     pose proof (removelast_le a) as Hrl.
     pose proof (IH (removelast a) false false st ltac:(lia)) as Hin.
     destruct (sx n (removelast a) false false st) as [o st1 pk|[|e] st1 m pk|]; [| |discriminate|congruence].
-    - destruct (s_builtin progname progver code (Some o) st1) as [[|v|e] st2]; [| |discriminate].
+    - destruct (s_builtin progname progver exec_out dir_list code (Some o) st1) as [[|v|e] st2]; [| |discriminate].
       + intros E. apply with_peak_fuel in E. revert E. apply IH. lia.
       + intros E. apply with_peak_fuel, emit_fuel in E. revert E. apply IH. lia.
-    - destruct (s_builtin progname progver code None st1) as [[|v|e] st2]; [| |discriminate].
+    - destruct (s_builtin progname progver exec_out dir_list code None st1) as [[|v|e] st2]; [| |discriminate].
       + intros E. apply with_peak_fuel in E. revert E. apply IH. lia.
       + intros E. apply with_peak_fuel, emit_fuel in E. revert E. apply IH. lia. }
   destruct (c =? 96). { destruct q1; [apply Hlit|discriminate]. }
@@ -166,14 +170,14 @@ Proof.
     pose proof (removelast_le a) as Hrl.
     assert (Hra : Forall nz_byte (removelast a)) by now apply removelast_nz.
     pose proof (IH (removelast a) [] false false st ltac:(lia) Hra pre_ok_nil Hst) as Hin.
-    pose proof (lloop_ok genv progname progver genv_nz progname_nz progver_nz n (removelast a) [] false false st
+    pose proof (lloop_ok genv progname progver genv_nz progname_nz progver_nz exec_out dir_list exec_ok dir_ok n (removelast a) [] false false st
                          ltac:(lia) Hra pre_ok_nil Hst) as Hok.
     destruct (sx n (removelast a) false false st) as [o st1 pk|[|e] st1 m pk|]; [| | |exact I].
     - (* the argument text expands to o *)
       cbn [sx_rel app length Nat.add] in Hin.
       (* everything below is under the assumption that o and its nested texts fit *)
       assert (Hcase : Z.of_nat (length o) < maxj -> Z.of_nat pk < maxj ->
-                      sx_rel (let '(out, st2) := s_builtin progname progver code (Some o) st1 in
+                      sx_rel (let '(out, st2) := s_builtin progname progver exec_out dir_list code (Some o) st1 in
                               match out with
                               | BExt e => SStop (StExt e) st2 0 (Nat.max (length o) pk)
                               | BStr v => with_peak (Nat.max (length o) pk) (emit v (sx n rest q1 q2 st2))
@@ -188,7 +192,7 @@ Proof.
                                                       | LLNull st1' => (None, st1')
                                                       | _ => (None, st)
                                                       end in
-                                let '(out, st2) := s_builtin progname progver code param st1' in
+                                let '(out, st2) := s_builtin progname progver exec_out dir_list code param st1' in
                                 match out with
                                 | BExt e => LLExt e
                                 | BStr (o0 :: ot) => lloop n rest (lplace pre (o0 :: ot)) q1 q2 st2
@@ -202,8 +206,8 @@ Proof.
         { unfold lfinish. pose proof maxj_eq.
           destruct (Z.ltb_spec (Z.of_nat (length o)) config_buff); [|lia]. now rewrite cut0_nz_id. }
         rewrite Ef.
-        pose proof (s_builtin_ok progname progver progname_nz progver_nz code (Some o) st1 Hst1) as Hb.
-        destruct (s_builtin progname progver code (Some o) st1) as [out st2].
+        pose proof (s_builtin_ok progname progver progname_nz progver_nz exec_out dir_list exec_ok dir_ok code (Some o) st1 Hst1) as Hb.
+        destruct (s_builtin progname progver exec_out dir_list code (Some o) st1) as [out st2].
         destruct Hb as (Hst2 & Hout).
         { intros o' E. injection E as <-. split; [exact Hoz|]. unfold small. pose proof cb_bounds. pose proof maxj_eq. lia. }
         destruct out as [|[|o0 ot]|e].
@@ -219,14 +223,14 @@ Proof.
             destruct (Z.leb_spec (Z.of_nat (length (o0 :: ot))) (maxj - Z.of_nat (length pre) - 1)); [reflexivity|lia].
         - cbn. reflexivity. }
       (* fold the assumption back into the shape of sx_rel *)
-      destruct (s_builtin progname progver code (Some o) st1) as [[|v|e] st2] eqn:Eb.
+      destruct (s_builtin progname progver exec_out dir_list code (Some o) st1) as [[|v|e] st2] eqn:Eb.
       + destruct (sx n rest q1 q2 st2) as [o' st' pk'|[|e'] st' m' pk'|]; cbn in *; intros; try exact I; apply Hcase; lia.
       + destruct (sx n rest q1 q2 st2) as [o' st' pk'|[|e'] st' m' pk'|]; cbn in *; intros; try exact I; apply Hcase; lia.
       + cbn in *. intros. apply Hcase; lia.
     - (* the argument text could not be expanded *)
       cbn [sx_rel app length Nat.add] in Hin.
       assert (Hcase : Z.of_nat m < maxj -> Z.of_nat pk < maxj ->
-                      sx_rel (let '(out, st2) := s_builtin progname progver code None st1 in
+                      sx_rel (let '(out, st2) := s_builtin progname progver exec_out dir_list code None st1 in
                               match out with
                               | BExt e => SStop (StExt e) st2 0 (Nat.max m pk)
                               | BStr v => with_peak (Nat.max m pk) (emit v (sx n rest q1 q2 st2))
@@ -241,7 +245,7 @@ Proof.
                                                       | LLNull st1' => (None, st1')
                                                       | _ => (None, st)
                                                       end in
-                                let '(out, st2) := s_builtin progname progver code param st1' in
+                                let '(out, st2) := s_builtin progname progver exec_out dir_list code param st1' in
                                 match out with
                                 | BExt e => LLExt e
                                 | BStr (o0 :: ot) => lloop n rest (lplace pre (o0 :: ot)) q1 q2 st2
@@ -249,8 +253,8 @@ Proof.
                                 end
                               end)).
       { intros Hm Hpk. specialize (Hin Hm Hpk). rewrite Hin in *. cbn [llres_ok] in Hok.
-        pose proof (s_builtin_ok progname progver progname_nz progver_nz code None st1 Hok ltac:(discriminate)) as Hb.
-        destruct (s_builtin progname progver code None st1) as [out st2].
+        pose proof (s_builtin_ok progname progver progname_nz progver_nz exec_out dir_list exec_ok dir_ok code None st1 Hok ltac:(discriminate)) as Hb.
+        destruct (s_builtin progname progver exec_out dir_list code None st1) as [out st2].
         destruct Hb as (Hst2 & Hout).
         destruct out as [|[|o0 ot]|e].
         - apply sx_rel_peak. apply IH; auto; lia.
@@ -264,7 +268,7 @@ Proof.
           + unfold lplace. rewrite app_length in Hfit.
             destruct (Z.leb_spec (Z.of_nat (length (o0 :: ot))) (maxj - Z.of_nat (length pre) - 1)); [reflexivity|lia].
         - cbn. reflexivity. }
-      destruct (s_builtin progname progver code None st1) as [[|v|e] st2] eqn:Eb.
+      destruct (s_builtin progname progver exec_out dir_list code None st1) as [[|v|e] st2] eqn:Eb.
       + destruct (sx n rest q1 q2 st2) as [o' st' pk'|[|e'] st' m' pk'|]; cbn in *; intros; try exact I; apply Hcase; lia.
       + destruct (sx n rest q1 q2 st2) as [o' st' pk'|[|e'] st' m' pk'|]; cbn in *; intros; try exact I; apply Hcase; lia.
       + cbn in *. intros. apply Hcase; lia.
